@@ -213,34 +213,86 @@ func cycleGuard(c *Ctx, rule, fnName string) {
 	recv := fn.Params[0]
 	pathName, recvName := canonParamName(path), canonParamName(recv)
 	nRec := 0
-	// the scan: a range loop over the path parameter containing isSame(elem, recv) and a return
-	loops := rangeLoops(fn, func(v ssa.Value) bool { return v == ssa.Value(path) })
+	// the scan: a range loop over the path parameter containing isSame(elem, recv) and a return —
+	// written in the function itself, or as a call of a helper that is exactly that scan
 	var scanIf *ssa.If
-	if len(loops) == 1 {
+	var scanBlock *ssa.BasicBlock // the block a path must pass to have scanned
+	scanIn := func(g *ssa.Function, pathV, recvV ssa.Value) (*ssa.If, *rangeLoop) {
+		loops := rangeLoops(g, func(v ssa.Value) bool { return v == pathV })
+		if len(loops) != 1 {
+			return nil, nil
+		}
+		pn, rn := p.Render(pathV), p.Render(recvV)
 		for b := range blocksDominatedBy(loops[0].Body) {
 			for _, in := range b.Instrs {
-				if call, ok := in.(*ssa.Call); ok && staticCalleeIs(call, "lang.isSame") {
-					a0, a1 := p.Render(call.Call.Args[0]), p.Render(call.Call.Args[1])
-					if (a0 == pathName+"[i@"+pathName+"]" && a1 == recvName) || (a1 == pathName+"[i@"+pathName+"]" && a0 == recvName) {
-						for _, r := range referrersOf(call) {
-							if ifi, ok := r.(*ssa.If); ok {
-								// the true edge returns
-								if _, isRet := ifi.Block().Succs[0].Instrs[len(ifi.Block().Succs[0].Instrs)-1].(*ssa.Return); isRet {
-									scanIf = ifi
-								}
-							}
+				call, ok := in.(*ssa.Call)
+				if !ok || !staticCalleeIs(call, "lang.isSame") {
+					continue
+				}
+				a0, a1 := p.Render(call.Call.Args[0]), p.Render(call.Call.Args[1])
+				if !((a0 == pn+"[i@"+pn+"]" && a1 == rn) || (a1 == pn+"[i@"+pn+"]" && a0 == rn)) {
+					continue
+				}
+				for _, r := range referrersOf(call) {
+					if ifi, ok := r.(*ssa.If); ok {
+						if _, isRet := ifi.Block().Succs[0].Instrs[len(ifi.Block().Succs[0].Instrs)-1].(*ssa.Return); isRet {
+							return ifi, &loops[0]
 						}
+					}
+				}
+			}
+		}
+		return nil, nil
+	}
+	if ifi, l := scanIn(fn, path, recv); ifi != nil {
+		scanIf, scanBlock = ifi, l.Header
+	} else {
+		// helper form: if flag && helper(path, recv) { return cycle verdict }
+		for _, call := range callsIn(fn) {
+			cv, ok := call.(*ssa.Call)
+			g := call.Common().StaticCallee()
+			if !ok || g == nil || g == fn || !p.InModule(g) || len(g.Params) != 2 || len(cv.Call.Args) != 2 {
+				continue
+			}
+			var gPath, gRecv *ssa.Parameter
+			switch {
+			case cv.Call.Args[0] == ssa.Value(path) && cv.Call.Args[1] == ssa.Value(recv):
+				gPath, gRecv = g.Params[0], g.Params[1]
+			case cv.Call.Args[1] == ssa.Value(path) && cv.Call.Args[0] == ssa.Value(recv):
+				gPath, gRecv = g.Params[1], g.Params[0]
+			default:
+				continue
+			}
+			hIf, _ := scanIn(g, gPath, gRecv)
+			if hIf == nil {
+				continue
+			}
+			// the helper answers true exactly from the scan, false otherwise
+			exact := true
+			for _, r := range returnsOf(g) {
+				b, isC := constBool(effectiveResults(r)[0])
+				if !isC || (b != (r.Block() == hIf.Block().Succs[0])) {
+					exact = false
+				}
+			}
+			if !exact {
+				continue
+			}
+			for _, r := range referrersOf(cv) {
+				if ifi, ok := r.(*ssa.If); ok {
+					if _, isRet := ifi.Block().Succs[0].Instrs[len(ifi.Block().Succs[0].Instrs)-1].(*ssa.Return); isRet {
+						scanIf, scanBlock = ifi, cv.Block()
 					}
 				}
 			}
 		}
 	}
 	if scanIf == nil {
-		c.violated(rule, key+" scan", p.Pos(fn.Pos()), "no loop over the path that returns when isSame(path element, receiver) holds")
+		c.violated(rule, key+" scan", p.Pos(fn.Pos()), "no loop over the path (here or in a helper given the path and the receiver) that returns when isSame(path element, receiver) holds")
 		return
 	}
 	// the scan is under the flag
-	known, val := FactsOf(fn).At(loops[0].Header).Truth(flag)
+	known, val := FactsOf(fn).At(scanBlock).Truth(flag)
 	c.check(known && val, rule, key+" scan-under-flag", p.InstrPos(scanIf), "the scan runs when the check flag is set", "the path scan is not controlled by the check flag")
 	for _, call := range callsIn(fn) {
 		cv, ok := call.(*ssa.Call)
@@ -263,7 +315,7 @@ func cycleGuard(c *Ctx, rule, fnName string) {
 		fb, isC := constBool(flagArg)
 		c.check(isC && fb, rule, k+" flag", p.InstrPos(cv), "check flag = true", "the recursive call does not pass the constant true as the check flag")
 		// the scan precedes the descent: the loop's exit dominates the call
-		c.check(scanPrecedes(fn, loops[0], cv, flag), rule, k+" after-scan", p.InstrPos(cv), "reached only after the scan (or with the flag unset at the root)", "a recursive descent is reachable without passing the path scan")
+		c.check(scanPrecedes(fn, scanBlock, cv, flag), rule, k+" after-scan", p.InstrPos(cv), "reached only after the scan (or with the flag unset at the root)", "a recursive descent is reachable without passing the path scan")
 	}
 	if nRec < 2 {
 		c.undecided(rule, key+" instance-floor", p.Pos(fn.Pos()), fmt.Sprintf("%d recursive calls, 2 confirmed by hand (array elements, object members)", nRec))
@@ -292,13 +344,13 @@ func cycleGuard(c *Ctx, rule, fnName string) {
 // scanPrecedes: from the true edge of the flag test, the call cannot be reached without passing
 // the scan loop's header (when the flag is false — only at the root, where the path is empty —
 // the scan is legitimately skipped).
-func scanPrecedes(fn *ssa.Function, loop rangeLoop, call *ssa.Call, flag *ssa.Parameter) bool {
+func scanPrecedes(fn *ssa.Function, scan *ssa.BasicBlock, call *ssa.Call, flag *ssa.Parameter) bool {
 	for _, b := range fn.Blocks {
 		ifi, ok := b.Instrs[len(b.Instrs)-1].(*ssa.If)
 		if !ok || ifi.Cond != ssa.Value(flag) {
 			continue
 		}
-		r := reachableFrom([]*ssa.BasicBlock{b.Succs[0]}, map[*ssa.BasicBlock]bool{loop.Header: true})
+		r := reachableFrom([]*ssa.BasicBlock{b.Succs[0]}, map[*ssa.BasicBlock]bool{scan: true})
 		return !r[call.Block()]
 	}
 	return false
